@@ -7,7 +7,7 @@
    law flags computed from the implementation's own answers. *)
 From Coq Require Import Lia.
 From GJ Require Import Base Kernel Series Ring PairSpec Pairs PairProofs Obj ObjSpec ObjProofs BoxLaws ContainsBoxes CoversBoxes
-  JordanRing JordanRect ObjSym.
+  JordanRing JordanRect ObjSym ObjSelf ObjLaws.
 Open Scope Z_scope.
 
 Theorem C09_within_is_contains_swapped : forall a b, o_within a b = o_contains b a.
@@ -92,6 +92,28 @@ Proof.
   - split; vm_compute; reflexivity.
 Qed.
 
+(* a non-empty object intersects itself (rectangles well-formed, polygons without holes) *)
+Theorem C09_intersects_self : forall a, obj_wf a -> o_empty a = false ->
+  (forall x, In x (sleaves a) -> s_wf x) -> o_intersects a a = true.
+Proof. exact o_intersects_self. Qed.
+
+(* if A contains a non-empty B then A intersects B — Geometry interface, receivers Point and Rect
+   (whose Contains is decided by rectangles), all four argument kinds (polygons without holes) *)
+Theorem C09_contains_implies_intersects_partial : forall a b,
+  rect_decided a -> s_wf a -> s_wf b -> s_empty b = false ->
+  g_contains (g_of_shape a) (g_of_shape b) = Some true ->
+  g_intersects (g_of_shape a) (g_of_shape b) = true.
+Proof. exact g_contains_intersects. Qed.
+Example C09_self_and_contains_hypotheses_hold_somewhere :
+  let a := OColl 3 [OPoly [[(0,0);(8,0);(8,8);(0,8);(0,0)]]; OLine [(9,9);(12,12)]; OLine []] in
+  obj_wf a /\ o_empty a = false /\ (forall x, In x (sleaves a) -> s_wf x) /\
+  g_contains (g_of_shape (SRect ((0,0),(9,9)))) (g_of_shape (SPoly [(1,1);(3,1);(3,3);(1,1)] [])) = Some true.
+Proof.
+  cbv zeta. split; [cbn; tauto|]. split; [vm_compute; reflexivity|]. split.
+  - cbn [sleaves flat_map app poly_shape]. intros x [<-|[<-|[<-|[]]]]; cbn; auto.
+  - vm_compute. reflexivity.
+Qed.
+
 (* a Rect used as a ring is the ring of its five corner points: the same record, so every
    ring-level algorithm answers alike on both *)
 Theorem C09_rect_is_its_five_point_ring : forall q, rect_wf q ->
@@ -110,6 +132,8 @@ Print Assumptions C09_intersects_implies_rects_meet.
 Print Assumptions C09_geometry_intersects_symmetric.
 Print Assumptions C09_intersects_symmetric.
 Print Assumptions C09_intersects_is_leafwise.
+Print Assumptions C09_intersects_self.
+Print Assumptions C09_contains_implies_intersects_partial.
 Print Assumptions C09_rect_is_its_five_point_ring.
 Print Assumptions C09_rect_poly_is_five_point_polygon.
 Print Assumptions C09_contains_implies_rect_covers.
